@@ -28,6 +28,9 @@ ASSUMPTIONS = [
     "stub reading of AddNoOverlap: pairwise end_a <= start_b or end_b <= start_a, also for zero-length intervals (checked against the real "
     "CP-SAT by layer 4 and by a probe recorded in DESIGN.md)",
     "the stub maps variables to operations through the names the library gives them (start_/end_ + repr(operation), makespan)",
+    "thorough tier: the stub's reading of cp_model is validated against the real CP-SAT: for every structure with <=3 operations and every "
+    "duration vector in {0,1,2}^n the complete solution sets of the real model (objective removed, all solutions enumerated) and of the "
+    "recorded model (z3 AllSAT) are equal",
     "layer 4 runs the real ORToolsSolver only on the concrete duration vectors produced by the solver for each symbolic path "
     "(representatives, not for-all) and on ft06 in the thorough tier",
 ]
@@ -56,6 +59,7 @@ def subspaces(tier):
         out += C.structure_subspaces(D.shapes(2, 2), 2, False, status="infeasible", reuse=False)
         out += C.structure_subspaces([s for s in D.shapes(3, 5) if sum(s) == 5], 3, False, canonical=True, status="optimal", reuse=False)
         out.append(dict(shape=[1], machines=[[0]], status="optimal", reuse=False, benchmark="ft06"))
+        out += C.structure_subspaces(D.shapes(3, 3), 2, False, status="optimal", reuse=False, stubcheck=True)
     return out
 
 
@@ -282,6 +286,8 @@ def harness(eng, sp):
 
     if eng.mode == "conc" and eng.values.get("__real__"):
         return real_harness(eng, sp)
+    if sp.get("stubcheck"):
+        return stubcheck_harness(eng, sp, O)
     stub_active = isinstance(getattr(O.cp_model, "CpModel", None), type) and O.cp_model.CpModel is StubModel
     undo = None
     if not stub_active:  # concrete re-run: the library is un-instrumented, install only the solver stub
@@ -444,8 +450,101 @@ def real_harness(eng, sp):
                 eng.fail("C03/real/optimal-differs-from-recorded-benchmark-optimum", f"{mk} vs {opt}")
 
 
+def stubcheck_harness(eng, sp, O):
+    """Validation of the stub's reading of cp_model: for every duration vector in {0,1,2}^n the set of ALL solutions of the model
+    built by the real library in the real CP-SAT (objective removed, enumerate_all_solutions) equals the set of all
+    solutions of the model recorded by the stub (z3 AllSAT)."""
+    import itertools as it
+    from ortools.sat.python import cp_model as real_cp
+    from job_shop_lib import JobShopInstance, Operation
+    from job_shop_lib.constraint_programming import ORToolsSolver
+
+    shape, machines = sp["shape"], sp["machines"]
+    n = sum(shape)
+    eng.reachable("state")
+    eng.reachable("transition")
+    stub_ns = O.cp_model if getattr(O.cp_model, "CpModel", None) is StubModel else stub_namespace()
+    for durs in it.product((0, 1, 2), repeat=n):
+        def mk():
+            k = 0
+            jobs = []
+            for ln in shape:
+                jobs.append([Operation(machines[k + i][0], durs[k + i]) for i in range(ln)])
+                k += ln
+            return JobShopInstance(jobs)
+        # real side
+        saved = O.cp_model
+        O.cp_model = real_cp
+        try:
+            solver = ORToolsSolver()
+            solver.solve(mk())
+            model = solver.model
+            model.ClearObjective()
+            nvars = len(model.Proto().variables)
+            vars_ = [model.GetIntVarFromProtoIndex(i) for i in range(nvars)]
+
+            class CB(real_cp.CpSolverSolutionCallback):
+                def __init__(self):
+                    super().__init__()
+                    self.sols = set()
+
+                def on_solution_callback(self):
+                    self.sols.add(tuple(self.Value(v) for v in vars_))
+
+            cb = CB()
+            cp = real_cp.CpSolver()
+            cp.parameters.enumerate_all_solutions = True
+            cp.Solve(model, cb)
+            real_sols = cb.sols
+        except Exception as ex:
+            eng.fail(f"C03/stub-validation/real-side-raises-{type(ex).__name__}", f"{durs}: {ex}"[:200])
+            O.cp_model = saved
+            continue
+        # stub side
+        O.cp_model = stub_ns
+        rec = {}
+
+        class Ctx2:
+            def on_solve(self, m):
+                rec["model"] = m
+                raise _Stop()
+
+        StubSolver.ctx = Ctx2()
+        try:
+            ORToolsSolver().solve(mk())
+        except _Stop:
+            pass
+        finally:
+            O.cp_model = saved
+        m = rec["model"]
+        zs = z3.Solver()
+        zv = [z3.Int(f"v{i}") for i in range(len(m.vars))]
+        e2 = E.Engine()
+        env = [E.SInt(e2, v) for v in zv]
+        cons = vand(m.eval(env))
+        zs.add(cons.e if isinstance(cons, E.SBool) else z3.BoolVal(bool(cons)))
+        stub_sols = set()
+        while zs.check() == z3.sat and len(stub_sols) < 20000:
+            mod = zs.model()
+            t = tuple(mod.eval(v, model_completion=True).as_long() for v in zv)
+            stub_sols.add(t)
+            zs.add(z3.Or([v != x for v, x in zip(zv, t)]))
+        if len(m.vars) != nvars or real_sols != stub_sols:
+            eng.fail("C03/stub-validation/solution-sets-differ",
+                     f"durations {durs}: real {len(real_sols)} solutions, stub {len(stub_sols)}; only-real {sorted(real_sols - stub_sols)[:2]} only-stub {sorted(stub_sols - real_sols)[:2]}")
+        else:
+            eng.prove(True, "C03/stub-validation/solution-sets-differ")
+    eng.observe("n", n)
+
+
+class _Stop(Exception):
+    pass
+
+
 def finalize(eng, sp):
     """Run the real solver on the duration vectors the symbolic exploration produced."""
+    if sp.get("stubcheck"):
+        return
     seen = eng.user.get("durs", set())
     n = sum(sp["shape"])
     if sp.get("benchmark"):
